@@ -18,7 +18,7 @@ def replay(payload):
 RULE = ("programs are built through the public API only: (i) the complete one-operator matrix (every operator form x operand "
         "kind variable/literal x arity 0..3, incl. empty and constant-only count_true/fold_and/fold_or/alldifferent); (ii) "
         "seeded random programs of nesting depth <= 3 over <= 2 booleans and <= 2 integers with negative, singleton and wider "
-        "domains; (iii) incremental sessions (declare / ensure / find_answer interleaved, every prefix checked); (iv) large programs with one model (chains, ladders, blocks over 130 / 257 variables) and single n-ary operator nodes with 2 .. 129 (257) operands in which one operand at the first / middle / last position decides the value. Oracle: brute "
+        "domains; (iii) incremental sessions (declare / ensure / find_answer interleaved, every prefix checked); (iv) large programs with one model (chains, ladders, blocks over 130 / 257 variables) and single n-ary operator nodes with 2 .. 129 (257) operands in which one operand at the first / middle / last position decides the value; (v) constants and domains around 2**31, 2**32, 2**63, 2**64, 10**30 and their negatives (one-model programs). Oracle: brute "
         "force over all assignments with specs/den.py; distinct = distinct generated programs")
 TECHNIQUE = "contract on Solver.find_answer (returns True iff a model exists; sol is a model) evaluated end to end against brute force over the reference semantics; bounded"
 LEVEL_TEXT = "exploration: end-to-end contract of find_answer on generated programs against brute force; the per-operator translation contracts (pyvc) are added as they are proved"
